@@ -35,7 +35,9 @@ class Scaled:
     def __init__(self, f, scale):
         self.f, self.scale = f, scale
 
-    def __call__(self, n, c, t):
+    def __call__(self, nbhd_arg, cell_arg, step_arg):
+
+        n, c, t = nbhd_arg, cell_arg, step_arg   # not named (n, c, t): the library must call rules positionally
         return self.f(n, c, t) / float(self.scale)
 
 
@@ -49,7 +51,9 @@ class KindAt:
     def __init__(self, f, kinds):
         self.f, self.kinds, self.i = f, dict((int(k), v) for k, v in kinds), 0
 
-    def __call__(self, n, c, t):
+    def __call__(self, nbhd_arg, cell_arg, step_arg):
+
+        n, c, t = nbhd_arg, cell_arg, step_arg   # not named (n, c, t): the library must call rules positionally
         v = self.f(n, c, t)
         k = self.kinds.get(self.i)
         self.i += 1
@@ -69,7 +73,9 @@ class Scribble:
     def __init__(self, f, mode='data'):
         self.f, self.mode = f, mode
 
-    def __call__(self, n, c, t):
+    def __call__(self, nbhd_arg, cell_arg, step_arg):
+
+        n, c, t = nbhd_arg, cell_arg, step_arg   # not named (n, c, t): the library must call rules positionally
         v = self.f(n, c, t)
         try:
             if isinstance(n, np.ma.MaskedArray):
